@@ -972,6 +972,10 @@ class Executor:
     # ---- equality -----------------------------------------------------------------------------------
     def eq(self, a, b):
         a, b = deref(a), deref(b)
+        if getattr(self, "eq_hook", None) is not None:
+            r = self.eq_hook(self, a, b)
+            if r is not NotImplemented:
+                return r
         if isinstance(a, (Term, Z)) or isinstance(b, (Term, Z)):
             if isinstance(a, Z) and isinstance(b, (int, bool)) and not z3.is_expr(b):
                 return a.e == b
